@@ -50,6 +50,7 @@ type Call struct {
 	Result string   `json:"result"`
 	Strs   []string `json:"strs"`
 	obj    runtime.Object
+	old    runtime.Object // stored object just before an update
 }
 
 // Fault describes an injected failure at one call index.
@@ -289,6 +290,7 @@ func (m *API) exec(a core.Action, res string, c *Call) (runtime.Object, error) {
 	case "create":
 		o := a.(core.UpdateAction).GetObject().DeepCopyObject()
 		mo := meta(o)
+		c.obj = o.DeepCopyObject()
 		if _, ok := m.objs[res][mo.GetName()]; ok {
 			return nil, apierrors.NewAlreadyExists(gr(res), mo.GetName())
 		}
@@ -312,12 +314,13 @@ func (m *API) exec(a core.Action, res string, c *Call) (runtime.Object, error) {
 	case "update":
 		o := a.(core.UpdateAction).GetObject().DeepCopyObject()
 		mo := meta(o)
+		c.obj = o.DeepCopyObject()
 		old, ok := m.objs[res][mo.GetName()]
 		if !ok {
 			return nil, apierrors.NewNotFound(gr(res), mo.GetName())
 		}
-		c.obj = o.DeepCopyObject()
 		mold := meta(old)
+		c.old = old.DeepCopyObject()
 		if mo.GetUID() != "" && mo.GetUID() != mold.GetUID() {
 			return nil, apierrors.NewConflict(gr(res), mo.GetName(), fmt.Errorf("uid precondition failed"))
 		}
